@@ -65,7 +65,8 @@ void rm_rf(const char *path) { nftw(path, rm_cb, 64, FTW_DEPTH | FTW_PHYS); }
 
 int main(int argc, char **argv) {
   setvbuf(stdout, NULL, _IOFBF, 1 << 16);
-  setenv("TZ", "UTC", 1);
+  /* UTC unless the check asks for a particular zone (KDRV_TZ) */
+  setenv("TZ", getenv("KDRV_TZ") ? getenv("KDRV_TZ") : "UTC", 1);
   if (argc < 2) {
     fprintf(stderr, "usage: kdrv <driver> [sandbox-root]\n");
     return 2;
